@@ -125,6 +125,13 @@ def check_case(case, res=None):
                 g = gm.ProtocolCodeGenerator(Path(xml_b))
                 g.generate(Path(out_b))
                 g.generate(Path(out_b))
+                if case.get("walk_seed", 1) % 3 == 0:
+                    # "clean, then generate": the previous output is removed and the same process generates again
+                    import shutil
+                    shutil.rmtree(out_b)
+                    gm.ProtocolCodeGenerator(Path(xml_b)).generate(Path(out_b))
+                    with open(os.path.join(out_b, "zzz_unrelated.txt"), "w") as f:
+                        f.write("keep me")
             # B2: a drawn permutation of the walk, fresh output directory
             os.walk = permuted_walk(case.get("walk_seed", 1) or 1)
             out_b2 = os.path.join(pkg.root, "build [x]", "lib", "eolib", "protocol", "_generated")   # nothing of it exists yet
